@@ -10,6 +10,45 @@ import (
 	"golang.org/x/tools/go/ssa"
 )
 
+// ascendingFromZero: idx takes the values 0,1,2,… over the iterations of its loop — the range form (i' = i+1 with i
+// starting at -1, the element read at i') or the three-clause form (i starting at 0, incremented by 1 after the body).
+func ascendingFromZero(idx ssa.Value) bool {
+	stepOf := func(v ssa.Value) (*ssa.Phi, bool) {
+		bo, ok := v.(*ssa.BinOp)
+		if !ok || bo.Op != token.ADD {
+			return nil, false
+		}
+		one, isC := constInt(bo.Y)
+		ph, isPhi := bo.X.(*ssa.Phi)
+		return ph, isC && one == 1 && isPhi
+	}
+	startsAt := func(ph *ssa.Phi, k int64, step ssa.Value) bool {
+		if len(ph.Edges) != 2 {
+			return false
+		}
+		start, back := false, false
+		for _, e := range ph.Edges {
+			if k0, ok := constInt(e); ok && k0 == k {
+				start = true
+			} else if e == step {
+				back = true
+			}
+		}
+		return start && back
+	}
+	if ph, ok := stepOf(idx); ok {
+		return startsAt(ph, -1, idx)
+	}
+	if ph, ok := idx.(*ssa.Phi); ok {
+		for _, e := range ph.Edges {
+			if p2, ok := stepOf(e); ok && p2 == ph {
+				return startsAt(ph, 0, e)
+			}
+		}
+	}
+	return false
+}
+
 func init() {
 	register("C17", "that user Register callbacks assign distinct nodes; absence of cross-talk under run-time interleavings (nothing per-session is shared to interleave on, by R5)", c17)
 	register("C20", "what user predicates and handlers do; that the client actually observes a finished session after a handler error (transport behaviour)", c20)
@@ -255,6 +294,14 @@ func c17(r *Report, s *Sem) {
 				if !ok || !instrDominates(c, g) {
 					return
 				}
+				// `go serve(ctx, ch)`: the channel is an argument, evaluated when the go statement runs
+				if _, isClosure := g.Call.Value.(*ssa.MakeClosure); !isClosure {
+					for _, arg := range g.Call.Args {
+						if stripConv(arg) == ssa.Value(c) {
+							captured = true
+						}
+					}
+				}
 				if mc, ok := g.Call.Value.(*ssa.MakeClosure); ok {
 					for _, b := range mc.Bindings {
 						if al, ok := b.(*ssa.Alloc); ok {
@@ -489,10 +536,27 @@ func c20(r *Report, s *Sem) {
 		r.Check(R1, "func "+fnName(reg)+" / appends at the end", p.pos(reg.Pos()), okApp, "m.table = append(m.table, handler): prepending or replacing breaks 'earliest registered wins'")
 		okWrap := false
 		eachCall(regF, func(c ssa.CallInstruction) {
-			if staticCallee(c) != reg {
+			var registered ssa.Value
+			if staticCallee(c) == reg {
+				registered = c.Common().Args[1]
+			} else if b, ok := c.Common().Value.(*ssa.Builtin); ok && b.Name() == "append" && pathOf(c.Common().Args[0]).Last() == fld {
+				// the registration inlined: m.table = append(m.table, adapter)
+				if elems := sliceOriginsElems(c.Common().Args[1]); len(elems) == 1 {
+					stored := false
+					for _, w := range fieldStores([]*ssa.Function{regF}, fld) {
+						if call, _ := callOf(w.Val); call != nil && ssa.Instruction(call) == c.(ssa.Instruction) {
+							stored = true
+						}
+					}
+					if stored {
+						registered = elems[0]
+					}
+				}
+			}
+			if registered == nil {
 				return
 			}
-			for _, l := range leaves(c.Common().Args[1]) {
+			for _, l := range leaves(registered) {
 				al, ok := stripConv(l).(*ssa.Alloc)
 				if !ok || namedOf(al.Type()) == nil || p.Type(k.adapter) == nil || namedOf(al.Type()).Obj() != p.Type(k.adapter).Obj() {
 					continue
@@ -556,18 +620,7 @@ func c20(r *Report, s *Sem) {
 		asc := false
 		if u, ok := stripConv(match.Call.Value).(*ssa.UnOp); ok && u.Op == token.MUL {
 			if ia, ok := u.X.(*ssa.IndexAddr); ok && pathOf(ia.X).Last() == fld {
-				if bo, ok := ia.Index.(*ssa.BinOp); ok && bo.Op == token.ADD {
-					if ph, ok := bo.X.(*ssa.Phi); ok {
-						one, _ := constInt(bo.Y)
-						start := false
-						for _, e := range ph.Edges {
-							if k0, ok := constInt(e); ok && k0 == -1 {
-								start = true
-							}
-						}
-						asc = one == 1 && start
-					}
-				}
+				asc = ascendingFromZero(ia.Index)
 			}
 		}
 		r.Check(R2, base+" / scans in registration order", p.instrPos(match), asc, "element i of the table with i = 0,1,2,… (a reverse or partial scan changes which handler wins)")
@@ -585,8 +638,8 @@ func c20(r *Report, s *Sem) {
 				if ifi == nil {
 					return false
 				}
-				call, _, isNil, ok := errTest(ifi, k2 == 0)
-				return ok && call == handle && isNil
+				isNil, ok := errTestOf(ifi, k2 == 0, handle)
+				return ok && isNil
 			},
 			onExit: func(e ssa.Instruction, pred *ssa.BasicBlock) {
 				if ret, ok := e.(*ssa.Return); ok && retMayBeNilVia(ret, pred) {
@@ -607,7 +660,7 @@ func c20(r *Report, s *Sem) {
 		okNil, okPred := false, false
 		for _, rl := range returnLeaves(m, 0) {
 			if c, ok := rl.v.(*ssa.Const); ok && c.Value != nil && c.Value.String() == "true" {
-				if condGuard(rl.b, func(cd Cond) bool {
+				if condGuardEdge(rl.b, rl.to, func(cd Cond) bool {
 					if cd.Op != token.EQL {
 						return false
 					}
@@ -656,8 +709,8 @@ func c20(r *Report, s *Sem) {
 					if ifi == nil {
 						return false
 					}
-					call, _, isNil, ok := errTest(ifi, k2 == 0)
-					return ok && call == c && isNil
+					isNil, ok := errTestOf(ifi, k2 == 0, c)
+					return ok && isNil
 				},
 				onExit: func(e ssa.Instruction, pred *ssa.BasicBlock) {
 					if ret, ok := e.(*ssa.Return); ok && retMayBeNilVia(ret, pred) {
@@ -679,8 +732,8 @@ func c20(r *Report, s *Sem) {
 					if ifi == nil {
 						return false
 					}
-					call, _, isNil, ok := errTest(ifi, k2 == 0)
-					return ok && call == c && isNil
+					isNil, ok := errTestOf(ifi, k2 == 0, c)
+					return ok && isNil
 				}})
 			r.Check(R4, "func "+fnName(a.listenFn)+" / error of "+g.Name()+" stops the dispatch loop", p.instrPos(c), okRet && !reenters, "a handler error must end the loop with that error")
 		})
